@@ -11,6 +11,7 @@
   (`cutoff rate = ⌈rate·2²⁴⌉` clipped to `[0, 2²⁴]`, so `rate ≤ P < rate + 2⁻²⁴` on `[0,1]`).
 -/
 import Uec.Lemmas.LinDist
+import Uec.Lemmas.RecipCutoff
 namespace Uec.Props.C12
 open Uec Uec.Lin Finset
 variable {α β : Type} (U : UserLaw)
@@ -98,11 +99,38 @@ theorem oneOverLength_expected [DecidableEq α] (neg : α → α) (g : List α) 
 theorem oneOverLength_pow2 : ∀ j, j < 25 → 2 ^ j * cutoff (F32.recipOfNat (2 ^ j)) = 2 ^ 24 := by
   decide +kernel
 
-/-- … and one expected flip up to `2n·2⁻²⁴` for every length `1 ≤ n ≤ 1024` (computed; the general
-    rounding-error bound for `fl32(1/n)` is not proved — see `oneOverLength_one_expected_partial`). -/
-theorem oneOverLength_one_expected_partial :
-    ∀ n, n < 1025 → n = 0 ∨ (2 ^ 24 ≤ n * cutoff (F32.recipOfNat n) ∧ n * cutoff (F32.recipOfNat n) < 2 ^ 24 + 2 * n) := by
-  decide +kernel
+/-- … and, for **every** length `1 ≤ n < 2²⁴`, one expected flip up to `2n·2⁻²⁴`: the cut-off of
+    `fl32(1/fl32(n))` on the 2⁻²⁴ grid satisfies `2²⁴ ≤ n·cutoff < 2²⁴ + 2n`.  (General rounding-error bound:
+    `n as f32` is exact, the mantissa of `1/n` is the correctly rounded quotient, the grid cut-off is its
+    ceiling - `Uec/Lemmas/FloatRecip.lean`, `RecipCutoff.lean`; no enumeration.) -/
+theorem oneOverLength_one_expected (n : Nat) (h0 : n ≠ 0) (hn : n < 2 ^ 24) :
+    2 ^ 24 ≤ n * cutoff (F32.recipOfNat n) ∧ n * cutoff (F32.recipOfNat n) < 2 ^ 24 + 2 * n :=
+  recip_cutoff n h0 hn
+
+/-- the same as a statement about the expected number of flips of `WithOneOverLength` on a genome of
+    length `n` (whose genes all change when negated): `1 ≤ E < 1 + 2n·2⁻²⁴` -/
+theorem oneOverLength_expected_close [DecidableEq α] (neg : α → α) (g : List α) (hn : ∀ x ∈ g, neg x ≠ x)
+    (h0 : g.length ≠ 0) (hl : g.length < 2 ^ 24) :
+    1 ≤ ev U (withOneOverLength neg g) (fun out => (diffCount g out : ℚ)) ∧
+    ev U (withOneOverLength neg g) (fun out => (diffCount g out : ℚ)) < 1 + 2 * g.length / 2 ^ 24 := by
+  rw [oneOverLength_expected U neg g hn]
+  obtain ⟨h1, h2⟩ := recip_cutoff g.length h0 hl
+  have e : (g.length : ℚ) * P (F32.recipOfNat g.length) =
+      ((g.length * cutoff (F32.recipOfNat g.length) : ℕ) : ℚ) / 2 ^ 24 := by
+    simp only [P]; push_cast; ring
+  rw [e]
+  have hpos : (0 : ℚ) < 2 ^ 24 := by positivity
+  constructor
+  · rw [le_div_iff₀ hpos]
+    have : ((2 ^ 24 : ℕ) : ℚ) ≤ ((g.length * cutoff (F32.recipOfNat g.length) : ℕ) : ℚ) := by exact_mod_cast h1
+    push_cast at this ⊢
+    linarith
+  · rw [div_lt_iff₀ hpos]
+    have : ((g.length * cutoff (F32.recipOfNat g.length) : ℕ) : ℚ) < ((2 ^ 24 + 2 * g.length : ℕ) : ℚ) := by
+      exact_mod_cast h2
+    have e2 : (1 + 2 * (g.length : ℚ) / 2 ^ 24) * 2 ^ 24 = ((2 ^ 24 + 2 * g.length : ℕ) : ℚ) := by
+      push_cast; field_simp; ring
+    rw [e2]; exact this
 
 /-! ### UMAD -/
 
@@ -293,12 +321,31 @@ theorem uniformClose_eq (n : Nat) : uniformCloseProbability n = F32.recipOfNat (
 theorem uniformClose_pow2 : ∀ j, j < 25 → 2 ^ j * cutoff (uniformCloseProbability (2 ^ j - 1)) = 2 ^ 24 := by
   decide +kernel
 
-/-- … and `1/(n+1)` up to `2·2⁻²⁴` for every `n < 1024` instructions (computed; the general
-    rounding-error bound is not proved) -/
-theorem uniformClose_partial :
-    ∀ n, n < 1024 → 2 ^ 24 ≤ (n + 1) * cutoff (uniformCloseProbability n) ∧
-      (n + 1) * cutoff (uniformCloseProbability n) < 2 ^ 24 + 2 * (n + 1) := by
-  decide +kernel
+/-- … and, for **every** number `n` of instructions with `n + 1 < 2²⁴`, the close-marker probability is
+    `1/(n+1)` up to `2·2⁻²⁴`: `2²⁴ ≤ (n+1)·cutoff < 2²⁴ + 2(n+1)`, i.e. `1/(n+1) ≤ P < 1/(n+1) + 2·2⁻²⁴`
+    (general rounding-error bound, no enumeration) -/
+theorem uniformClose_general (n : Nat) (hn : n + 1 < 2 ^ 24) :
+    2 ^ 24 ≤ (n + 1) * cutoff (uniformCloseProbability n) ∧
+      (n + 1) * cutoff (uniformCloseProbability n) < 2 ^ 24 + 2 * (n + 1) :=
+  recip_cutoff (n + 1) (by omega) hn
+
+theorem uniformClose_law (n : Nat) (hn : n + 1 < 2 ^ 24) :
+    1 / ((n : ℚ) + 1) ≤ P (uniformCloseProbability n) ∧
+    P (uniformCloseProbability n) < 1 / ((n : ℚ) + 1) + 2 / 2 ^ 24 := by
+  obtain ⟨h1, h2⟩ := uniformClose_general n hn
+  have hpos : (0 : ℚ) < 2 ^ 24 := by positivity
+  have hn1 : (0 : ℚ) < (n : ℚ) + 1 := by positivity
+  have c1 : ((2 ^ 24 : ℕ) : ℚ) ≤ (((n + 1) * cutoff (uniformCloseProbability n) : ℕ) : ℚ) := by exact_mod_cast h1
+  have c2 : (((n + 1) * cutoff (uniformCloseProbability n) : ℕ) : ℚ) < ((2 ^ 24 + 2 * (n + 1) : ℕ) : ℚ) := by
+    exact_mod_cast h2
+  push_cast at c1 c2
+  simp only [P]
+  constructor
+  · rw [div_le_div_iff₀ hn1 hpos]; linarith
+  · rw [show (1 : ℚ) / ((n : ℚ) + 1) + 2 / 2 ^ 24 = (2 ^ 24 + 2 * ((n : ℚ) + 1)) / (((n : ℚ) + 1) * 2 ^ 24) by
+      field_simp]
+    rw [div_lt_div_iff₀ hpos (by positivity)]
+    nlinarith [c2]
 
 /-! ### non-vacuity / sanity -/
 
